@@ -615,24 +615,14 @@ func ruleC03R6(c *Ctx) {
 		}
 	}
 	// one feeder goroutine per bufferer
-	ng := 0
-	for _, fn := range c.P.universe {
-		for _, s := range callsIn(fn) {
-			g, ok := s.(*ssa.Go)
-			if !ok {
-				continue
-			}
-			for _, cal := range c.P.callees(g) {
-				if isAnchor(cal, aFeederRun) {
-					ng++
-					c.check(anchorName(fn) == aBufStart, "C03.R6", fn, "go feeder.Run", g.Pos(), "the feeder goroutine is launched only by bufferer.Start", "a second feeder goroutine would break FIFO order")
-				}
-			}
-		}
+	goSites, inGo := c.feederGoSites()
+	for _, g := range goSites {
+		fn := g.Parent()
+		c.check(anchorName(fn) == aBufStart, "C03.R6", fn, "go feeder.Run", g.Pos(), "the feeder goroutine is launched only by bufferer.Start", "a second feeder goroutine would break FIFO order")
 	}
-	c.floor("C03.R6", "go feeder.Run sites", ng, 1)
+	c.floor("C03.R6", "go feeder.Run sites", len(goSites), 1)
 	for _, s := range c.callSitesOf(anchorPred(aFeederRun)) {
-		if _, isGo := s.(*ssa.Go); !isGo {
+		if _, isGo := s.(*ssa.Go); !isGo && !inGo[s.Parent()] {
 			c.bad("C03.R6", s.Parent(), "feeder.Run called synchronously", s.Pos(), "feeder.Run must only run as the single feeder goroutine")
 		}
 	}
@@ -1069,4 +1059,97 @@ func ruleC03R11(c *Ctx) {
 			"every path to the enqueue passes UnloadOrDropChunk or the below-threshold edge of the window comparison",
 			"the enqueue is reachable with a loaded chunk although the output window is at or above the spill threshold (the spill can be switched off by another condition): the queue of 500000 slots then holds loaded chunks and the in-memory bound is gone: "+c.P.trailString(trail))
 	}
+}
+
+// feederGoSites: the go statements that launch the feeder loop, either "go feeder.Run()" or "go func() { …; feeder.Run() }()".
+// The second result holds the closures that only run as such a goroutine.
+func (c *Ctx) feederGoSites() ([]*ssa.Go, map[*ssa.Function]bool) {
+	var out []*ssa.Go
+	inGo := map[*ssa.Function]bool{}
+	for _, fn := range c.P.universe {
+		for _, s := range callsIn(fn) {
+			g, ok := s.(*ssa.Go)
+			if !ok {
+				continue
+			}
+			for _, cal := range c.P.callees(g) {
+				if isAnchor(cal, aFeederRun) {
+					out = append(out, g)
+					break
+				}
+				if cal.Parent() != nil && len(c.callsTo(cal, anchorPred(aFeederRun))) > 0 {
+					// a closure launched by go only (its single use is this go statement)
+					if mc, isMC := strip(g.Call.Value).(*ssa.MakeClosure); isMC && mc.Fn == cal && len(*mc.Referrers()) == 1 {
+						out = append(out, g)
+						inGo[cal] = true
+						break
+					}
+					if f, isF := g.Call.Value.(*ssa.Function); isF && f == cal {
+						out = append(out, g)
+						inGo[cal] = true
+						break
+					}
+				}
+			}
+		}
+	}
+	return out, inGo
+}
+
+// R12: the persistent-chunks gauge (and the byte gauge with it) moves at most once per chunk event. A chunk is counted
+// persistent once (OnChunkRecovered or a successful UnloadChunk), so an exit event (consumed, corrupted, dropped,
+// leftover, failed unload/load) that can decrement the gauge twice on one path leaves it one too low for the life
+// of the process. Paths are enumerated through the manager's and the operator's methods.
+func init() {
+	register("C03", "C03.R12", ruleC03R12)
+	register("C19", "C03.R12", ruleC03R12)
+}
+
+func ruleC03R12(c *Ctx) {
+	const pfx = "buffer/hybridbuffer.chunkOperatorMetrics."
+	roots := []string{aOnConsumed, aOnCorrupted, aOnDropped, aOnLeftover, aUnloadDrop, aLoadDrop}
+	nSites := 0
+	for _, a := range roots {
+		fn := c.P.Fn(a)
+		cs := &CountSpec{P: c.P, Classes: []string{"persistentChunks.Inc", "persistentChunks.Dec", "persistentChunkBytes.Add", "persistentChunkBytes.Sub"},
+			Descend: func(f *ssa.Function) bool {
+				n := anchorName(f)
+				return strings.HasPrefix(n, "buffer/hybridbuffer.(*chunkManager).") || strings.HasPrefix(n, "buffer/hybridbuffer.(*chunkOperator).")
+			},
+			Site: func(s ssa.CallInstruction) int {
+				cc := s.Common()
+				if !cc.IsInvoke() {
+					return -1
+				}
+				f := fieldOf(cc.Value)
+				if !strings.HasPrefix(f, pfx) {
+					return -1
+				}
+				switch strings.TrimPrefix(f, pfx) + "." + cc.Method.Name() {
+				case "persistentChunks.Inc":
+					return 0
+				case "persistentChunks.Dec":
+					return 1
+				case "persistentChunkBytes.Add":
+					return 2
+				case "persistentChunkBytes.Sub":
+					return 3
+				}
+				return -1
+			}}
+		outs := cs.Enum(fn, entryOf(fn), nil)
+		good := len(outs) > 0
+		var why []string
+		for _, o := range outs {
+			nSites += o.Counts[0] + o.Counts[1]
+			if o.Counts[0] > 1 || o.Counts[1] > 1 || o.Counts[2] > 1 || o.Counts[3] > 1 || o.Counts[1] != o.Counts[3] || o.Counts[0] != o.Counts[2] {
+				good = false
+				why = append(why, cs.describe(o))
+			}
+		}
+		c.check(good, "C03.R12", fn, "persistent gauges move at most once per chunk event, count and bytes together", fn.Pos(),
+			fmt.Sprintf("all %d path outcomes move persistentChunks and persistentChunkBytes at most once, and together", len(outs)),
+			"a chunk event can move the persistent gauges twice (or one without the other): "+strings.Join(why, "; "))
+	}
+	c.floor("C03.R12", "gauge movements seen on the enumerated paths", nSites, 4)
 }
